@@ -259,6 +259,11 @@ def extended_cases(tier):
         for where in ("ctor", "block", "both"):
             for kind in KINDS:
                 yield ("cred", auth, where, kind)
+    # configured User-Agent / content type values on both sides of a truthiness test
+    for ua in ("", "0", " ", "ua/1 (x; y)"):
+        for where in ("ctor-arg", "attribute", "copy"):
+            for kind in ("call", "batch"):
+                yield ("config-ua", ua, where, kind)
     # header dictionaries built on the fly and dropped after their block (a later dictionary may reuse the address of a freed one)
     for n in (3, 50):
         for kind in ("call", "notify"):
@@ -296,6 +301,20 @@ def check_extended(case):
                         do_request(proxy, c)
                 else:
                     do_request(proxy, c)
+            elif what == "config-ua":
+                if b == "ctor-arg":
+                    cfg = Config(content_type="application/x-verif", user_agent=a)
+                elif b == "attribute":
+                    cfg = Config(content_type="application/x-verif")
+                    cfg.user_agent = a
+                else:
+                    cfg = Config(content_type="application/x-verif", user_agent=a).copy()
+                proxy = jsonrpclib.ServerProxy("http://h.test:80/p", config=cfg)
+                do_request(proxy, c)
+                ua = [v for k, v in peer.requests[-1].headers if k.lower() == "user-agent"]
+                if [x.strip() for x in ua] != [a.strip()]:
+                    out.bad("C18/user-agent", "%r: User-Agent lines %r, the configured one is %r" % (case, ua, a))
+                return out
             elif what == "temporaries":
                 proxy = jsonrpclib.ServerProxy("http://h.test:80/p", config=CFG)
                 first = len(peer.requests)
